@@ -27,15 +27,15 @@ var Metas = map[string]Meta{
 	"C12": {Category: "exploration", Rule: "one run = history h1 (possibly abandoned, failed, closed), Reset, history h2, compared with a fresh Writer running h2; non-trivial = h1 wrote at least one byte; distinct = distinct schedule signature"},
 	"C14": {Category: "fault_enumeration", Rule: "for each sampled workload the sink fails at call k for every k (thorough, and quick when the fault-free run makes <= 64 calls; otherwise first/last 8 and a stratified sample); one evaluation = one (workload, k) run; non-trivial = the injected fault actually fired; distinct = distinct schedule signature"},
 	"C16": {Category: "exploration", Rule: "all histories over {Write(0), Write(small), Write(70000), Flush, Close, Reset} up to length 4 (5 thorough), the constructor level table -4..11, then random histories up to length 40, each in lock-step with the stdlib Writer; non-trivial = more than one operation; distinct = distinct schedule signature"},
-	"C02": {Category: "exploration", CrossLevel: true, Rule: "one run = one stream accepted by compress/flate (stdlib or fastgo encoder history, or block synthesiser) read through a drawn source kind, delivery schedule and Read-size schedule; non-trivial = stdlib accepts and the output is non-empty; distinct = distinct schedule signature (source refill sizes/outcomes, result)"},
-	"C03": {Category: "exploration", CrossLevel: true, Rule: "one run = one malformed/truncated/random input (planted structural fault, blind mutation, truncation; every 16th (thorough: 64th) run index sweeps the truncation point over every byte of a small valid stream) on a fresh or reused Reader; non-trivial = non-empty input; distinct = distinct schedule signature"},
-	"C04": {Category: "exploration", CrossLevel: true, Rule: "one run = one valid or truncated stream read all-at-once and under 8 (12 thorough) delivery/Read-size schedules, three of them aimed at a block header or block end; one evaluation = one schedule; non-trivial = non-empty input; distinct = distinct schedule signature"},
-	"C05": {Category: "exploration", CrossLevel: true, Rule: "one run = valid stream/container followed by a suffix, read to io.EOF through a source kind and constructor; non-trivial = non-empty suffix; distinct = distinct schedule signature"},
+	"C02": {Category: "exploration", Rule: "one run = one stream accepted by compress/flate (stdlib or fastgo encoder history, or block synthesiser) read through a drawn source kind, delivery schedule and Read-size schedule; non-trivial = stdlib accepts and the output is non-empty; distinct = distinct schedule signature (source refill sizes/outcomes, result)"},
+	"C03": {Category: "exploration", Rule: "one run = one malformed/truncated/random input (planted structural fault, blind mutation, truncation; every 16th (thorough: 64th) run index sweeps the truncation point over every byte of a small valid stream) on a fresh or reused Reader; non-trivial = non-empty input; distinct = distinct schedule signature"},
+	"C04": {Category: "exploration", Rule: "one run = one valid or truncated stream read all-at-once and under 8 (12 thorough) delivery/Read-size schedules, three of them aimed at a block header or block end; one evaluation = one schedule; non-trivial = non-empty input; distinct = distinct schedule signature"},
+	"C05": {Category: "exploration", Rule: "one run = valid stream/container followed by a suffix, read to io.EOF through a source kind and constructor; non-trivial = non-empty suffix; distinct = distinct schedule signature"},
 	"C06": {Category: "exploration", Rule: "one run = one gzip/zlib Writer history (header fields, level, partition, Reset reuse) executed by fastgo and by the stdlib Writer; every cleanly closed container is read by the opposite implementation; non-trivial = at least one byte written; distinct = distinct schedule signature"},
-	"C07": {Category: "fault_enumeration", CrossLevel: true, Rule: "for each sampled well-formed container: every truncation point and every single-bit flip (containers up to 420 bytes; sampled positions above), plus 60 sampled double flips / byte substitutions; one evaluation = one damaged container read through the drawn source and Read schedule; non-trivial = every damaged run; distinct = distinct schedule signature"},
-	"C08": {Category: "exploration", CrossLevel: true, Rule: "one run = 1..6 gzip members (fastgo or stdlib Writers, synthesised streams, empty members), optional trailing data, read in default mode or with Multistream(false)+Reset; non-trivial = more than one member; distinct = distinct schedule signature"},
+	"C07": {Category: "fault_enumeration", Rule: "for each sampled well-formed container: every truncation point and every single-bit flip (containers up to 420 bytes; sampled positions above), plus 60 sampled double flips / byte substitutions; one evaluation = one damaged container read through the drawn source and Read schedule; non-trivial = every damaged run; distinct = distinct schedule signature"},
+	"C08": {Category: "exploration", Rule: "one run = 1..6 gzip members (fastgo or stdlib Writers, synthesised streams, empty members), optional trailing data, read in default mode or with Multistream(false)+Reset; non-trivial = more than one member; distinct = distinct schedule signature"},
 	"C11": {Category: "exploration", Rule: "one run = producer task (Writer history with Flush points, stdlib or fastgo encoder) and consumer task (fastgo Reader) on a gated pipe under a seeded scheduler; the driver releases one flush point at a time and evaluates at every quiescence whether all data before that point was returned; afterwards the source stalls, fails or delivers unrelated bytes; non-trivial = at least two flush points; distinct = distinct schedule signature (incl. task switches)"},
-	"C13": {Category: "exploration", CrossLevel: true, Rule: "one run = 1..3 earlier streams (read partially, to EOF or into an error), Reset, next input (valid, back-references before its start, malformed), compared with a fresh Reader; non-trivial = at least one earlier stream; distinct = distinct schedule signature"},
+	"C13": {Category: "exploration", Rule: "one run = 1..3 earlier streams (read partially, to EOF or into an error), Reset, next input (valid, back-references before its start, malformed), compared with a fresh Reader; non-trivial = at least one earlier stream; distinct = distinct schedule signature"},
 	"C15": {Category: "fault_enumeration", Rule: "for each sampled valid stream/container the source fails after k bytes for every k in 0..len (thorough, and quick when len <= 512; otherwise first/last 8 and a stratified sample), error alone or with the last bytes; one evaluation = one (stream, k) run; non-trivial = the injected error was actually returned by the source; distinct = distinct schedule signature"},
 	"C17": {Category: "exploration", Rule: "deterministic pass: one run = 2..8 independent Writer/Reader tasks switched by the seeded scheduler at every seam call, each compared with its solo run; non-trivial = more task switches than tasks; distinct = distinct schedule signature. Free-running pass (race-detector build): the same kind of task sets started behind one barrier with no synchronisation at GOMAXPROCS 2/4/16, outputs compared with solo runs, race reports collected (this pass does not control the interleaving and says so)"},
 	"C18": {Category: "exploration", CrossLevel: true, Rule: "one run = one level-independent input (valid, truncated or malformed; flate/gzip/zlib) read with the same source/Read schedule in worker processes forced to each runnable level; the parent compares (output bytes, error kind) across levels; non-trivial = input longer than the assembly loop's 24-byte slop; distinct = distinct schedule signature"},
